@@ -16,6 +16,8 @@ Ops:
   cmg <graph> <shareIndices>                   → _compute_maximum_graph
   calc <cfg> <peers> <shares> <servermap>      → _calculate_mappings
   dist <mappings> <homeless> <p2s>             → _distribute_homeless_shares (mappings afterwards)
+  spread <placement>                           → number of distinct servers (`distinctServers`)
+  holds <p2s> <peer> <share>                   → `T`/`F`: `share in p2s[peer]` (`Holds`)
   sel <cfg> <total> op op …                    → PeerSelector history: `a:P` add_peer, `s:P:N` add_peer_with_share,
         `r:P` mark_readonly_peer, `b:P` mark_bad_peer, `g` get_share_placements; one field per op joined by `;`
         (`-` None, `KeyError`, or the plan), then `S:<peers>|<readonly>|<bad>|<existing>` (state afterwards)
@@ -112,6 +114,14 @@ def handle : List String → String
     | _, _, _, _ => "bad-op"
   | ["dist", mp, h, m] => match parseMappings mp, parseIds h, parseSetMap m with
     | some mp, some h, some m => showMappings (distributeHomeless mp h m)
+    | _, _, _ => "bad-op"
+  | ["spread", r] => match parseMappings r with
+    | some m => match m.mapM (fun e => e.2.map (fun p => (e.1, p))) with
+      | some res => toString (distinctServers res)
+      | none => "bad-op"
+    | none => "bad-op"
+  | ["holds", m, p, s] => match parseSetMap m, p.toNat?, s.toNat? with
+    | some m, some p, some s => if Holds m p s then "T" else "F"
     | _, _, _ => "bad-op"
   | "sel" :: c :: total :: ops => match parseCfg c, total.toNat?, ops.mapM parseSelOp with
     | some c, some total, some ops =>
